@@ -9,7 +9,7 @@ specification / the library's documented cXOF construction, as identities of
 bit expressions with the permutation uninterpreted (av/sponge.py); plus D1:
 the pre-computed initial states in all three encodings equal P12(IV block).
 """
-from . import modecheck, modes, tables
+from . import repo, modecheck, modes, tables
 
 LEVEL = "other"
 MANIFEST = {
@@ -24,6 +24,16 @@ MANIFEST = {
                  "specification oracle; constant-table decoding",
     "engines": ["irdump", "av"],
 }
+
+
+def _inlined_module(js):
+    """the inlined view (file-local helpers inlined into their callers) of a lowered module"""
+    import os
+    from . import ir as _ir
+    out = js[:-5] + ".inlined.json"
+    if not os.path.exists(out):
+        repo.run([repo.IRDUMP, "--inline-internal", os.path.join(os.path.dirname(js), "linked.opt.ll"), out])
+    return _ir.Module.load(out)
 
 
 def run(rep, tier):
@@ -62,7 +72,7 @@ def run(rep, tier):
     from . import widths
     rep.rule("C03.D2", "length arithmetic keeps the full width of size_t (no 32-bit mask or unguarded narrowing before control/addressing)")
     for js, cname, layout, maxs, units in prep:
-        widths.rule(rep, "C03.D2", modes.load_module(js), cname, files=("/src/hash/", "/src/core/"))
+        widths.rule(rep, "C03.D2", _inlined_module(js), cname, files=("/src/hash/", "/src/core/"), inlined=True)
     widths.control(rep, "C03.D2")
     for d in modecheck.run_cases("C03", rid, tier, cases, None):
         rep.merge(d)
